@@ -963,6 +963,165 @@ def kwargs_correspondence(ctx: vlib.Ctx):
         L.unload_module(modname)
 
 
+MP_SRC = L.HEADER + """
+class XDP(Dialect):
+    pass
+
+@dataclass
+class Inner(%(mixin)s):
+    z: Optional[datetime.date] = None
+
+@dataclass
+class MP(%(mixin)s):
+    x: int
+    y: Optional[bytes] = None
+    zs: List[Inner] = field(default_factory=list)
+%(cfg)s
+"""
+
+
+def classify_mixin_method(text: str, method: str, direction: str) -> dict:
+    """the emitted module text of one generated method -> CodecWrap instructions per branch
+    ({False: no call-time dialect, True: `dialect=` given}); unknown shapes become a never-equal program"""
+    UNK = ["IDef"] * 6
+    lines = text.splitlines()
+    try:
+        di = next(i for i, ln in enumerate(lines) if ln.startswith(f"def {method}("))
+    except StopIteration:
+        return {False: UNK, True: UNK}
+    body = []
+    for ln in lines[di + 1:]:
+        if ln and not ln.startswith(" "):
+            break
+        body.append(ln)
+    install = any(ln.strip() == f"setattr(cls, '{method}', {method})" or ln.strip() == f"setattr(_cls, '{method}', {method})"
+                  for ln in lines)
+    if "    if dialect is None:" in body and "    else:" in body:
+        i0, i1 = body.index("    if dialect is None:"), body.index("    else:")
+        branches = {False: body[i0 + 1:i1], True: body[i1 + 1:]}
+        if any(ln.strip() for ln in body[:i0]):
+            return {False: UNK, True: UNK}
+    else:
+        branches = {False: body, True: None}
+    out = {}
+    for dg, br in branches.items():
+        if br is None:
+            out[dg] = None
+            continue
+        st = [ln.strip() for ln in br if ln.strip()]
+        rets = [ln for ln in st if ln.startswith("return ") or ln == "return"]
+        prog = ["IDef"]
+        if direction == "from":
+            ndec = sum("decoder(" in ln for ln in st)
+            if st and st[0] == "d = decoder(d)" and ndec == 1:
+                prog.append("IPre")
+            elif ndec != 0:
+                prog += UNK
+            prog.append("IReturnExpr" if rets and not any("decoder(" in r for r in rets) else "IDef")
+        else:
+            if rets and all(r.startswith("return encoder(") for r in rets) and sum("encoder(" in ln for ln in st) == len(rets):
+                prog.append("IReturnPost")
+            elif rets and not any("encoder(" in ln for ln in st):
+                prog.append("IReturnExpr")
+            else:
+                prog += UNK
+        prog.append("IInstallDef" if install else "IDef")
+        out[dg] = prog
+    return out
+
+
+def mixin_program_correspondence(ctx: vlib.Ctx):
+    """(M) the programs of the generated from_<format> / to_<format> methods (MixinWrap.mixin_from_prog / mixin_to_prog over
+    K104a-c) against the module text the real code generator emits for real classes, per branch (with / without
+    `dialect=`); plus: a recording decoder is called exactly once, with the document, on both branches."""
+    name = "mixin-method-programs-vs-emitted-code"
+    kr = ctx.kernel_report
+    if not all(kr.get(k, {}).get("ok") for k in ("K104a", "K104b", "K104c")):
+        ctx.correspondence(name, 0, -1, "kernels K104a/b/c not translated: " + str([kr.get(k, {}).get("error") for k in ("K104a", "K104b", "K104c")]))
+        return
+    from mashumaro.core.meta.code import builder as B
+    rec = []
+    orig = B.CodeBuilder.compile
+
+    def spy(self):
+        rec.append(self.lines.as_text())
+        return orig(self)
+    cases, descr, extra_bad = [], [], []
+    B.CodeBuilder.compile = spy
+    try:
+        for F in ("orjson", "msgpack", "toml"):
+            for dsupport in (False, True):
+                cfg = "    class Config(BaseConfig):\n        code_generation_options = [ADD_DIALECT_SUPPORT]\n" if dsupport else ""
+                src = MP_SRC % {"mixin": KW_MIXINS[F], "cfg": cfg}
+                modname = f"c04_mp_{F}_{int(dsupport)}"
+                rec.clear()
+                try:
+                    mod = L.load_module(src, modname)
+                    v = mod.MP(1, None, [mod.Inner(None)]) if F == "toml" else mod.MP(1, b"ab", [mod.Inner(None)])
+                    to_m, from_m = L.MIXIN_METHODS[F]
+                    doc = getattr(v, to_m)()
+                    getattr(mod.MP, from_m)(doc)
+                    if dsupport:
+                        getattr(mod.MP, from_m)(getattr(v, to_m)(dialect=mod.XDP), dialect=mod.XDP)
+                    for direction, pub in (("from", from_m), ("to", to_m)):
+                        method = f"__mashumaro_{pub}__"
+                        texts = [t for t in rec if f"def {method}(" in t and "MP" in t or (f"def {method}(" in t)]
+                        texts = [t for t in rec if f"def {method}(" in t]
+                        if not texts:
+                            cases.append(f"({vlib.coq_bool(direction == 'from')}, {L.FMT[F]}, false, [IInstallDirect])")
+                            descr.append({"format": F, "method": method, "why": "no emitted text captured"})
+                            continue
+                        for t in texts:
+                            if "dialect=dialect," in t.split(f"def {method}(")[0] or f"[dialect] = {method}" in t:
+                                continue        # a per-dialect method (built without encoder / decoder): not the public method
+                            for dg, prog in classify_mixin_method(t, method, direction).items():
+                                if prog is None:
+                                    continue
+                                cases.append(f"({vlib.coq_bool(direction == 'from')}, {L.FMT[F]}, {vlib.coq_bool(dg)}, [{'; '.join(prog)}])")
+                                descr.append({"format": F, "method": method, "dialect_branch": dg, "dialect_support": dsupport,
+                                              "observed": prog, "text": t[:1500]})
+                    # the decoder runs exactly once, on the document
+                    for dg in ((False, True) if dsupport else (False,)):
+                        seen = []
+
+                        def dspy(d, _F=F):
+                            seen.append(d)
+                            return L.parse_doc(_F, d)
+                        kw = {"decoder": dspy}
+                        if dg:
+                            kw["dialect"] = mod.XDP
+                        back = getattr(mod.MP, from_m)(doc, **kw)
+                        if seen != [doc] or back != v:
+                            extra_bad.append({"format": F, "dialect_given": dg, "decoder_calls": len(seen), "same": back == v})
+                        cases.append(f"(true, {L.FMT[F]}, {vlib.coq_bool(dg)}, "
+                                     f"[IDef; {'IPre' if seen == [doc] else 'IDef'}; IReturnExpr; IInstallDef])")
+                        descr.append({"format": F, "dialect_given": dg, "decoder_calls": len(seen)})
+                except Exception as e:
+                    ctx.fail(f"mixin program probe class cannot be created/used: {_exc(e)}",
+                             {"entry": "schema", "src": src, "observed": traceback.format_exc()[-1500:], "expected": "classes are created"},
+                             {"kind": "schema-compile", "exc": type(e).__name__})
+                finally:
+                    L.unload_module(modname)
+    finally:
+        B.CodeBuilder.compile = orig
+    okf = ("fun (c: bool * fmt * bool * list cinstr) => match c with (is_from, F, dg, got) => "
+           "match assoc_fmt F source_mixins with "
+           "| Some m => prog_eqb (if is_from then mixin_from_prog m dg else mixin_to_prog m dg) got "
+           "| None => false end end")
+    bad, log = vlib.coq_bad_idx("c04_mp", "Fmt FmtDialectSource FmtEntries CodecWrap EncKwargs MixinWrap",
+                                "From VerifGen Require Import K104a K104b K104c.", "", cases, okf,
+                                "bool * fmt * bool * list cinstr", shard=400, timeout=1800, needs=["theories/MixinWrap.vo"])
+    ctx.count(n=len(cases))
+    if bad is None:
+        ctx.correspondence(name, len(cases), -1, log)
+        ctx.not_shown("correspondence " + name, log)
+    else:
+        detail = str([descr[i] for i in bad[:3]])[:2500]
+        ctx.correspondence(name, len(cases), len(bad), detail)
+        if bad:
+            ctx.not_shown("correspondence " + name, detail)
+
+
 def names_oracle(ctx: vlib.Ctx):
     """Direct check of the method-name clause on the real classes: one class carrying every format mixin
     gets one distinct generated method per (format, direction) and none is overwritten."""
@@ -1003,7 +1162,7 @@ class P(%s):
 
 
 C04_TARGETS = ["props/C04_formats.vo", "props/C04_names.vo", "props/C04_dialects.vo", "props/C04_codec.vo",
-               "props/C04_entries.vo", "props/C04_kwargs.vo", "theories/FmtCases.vo", "theories/K11Proofs.vo", "theories/CodecWrapProofs.vo"]
+               "props/C04_entries.vo", "props/C04_kwargs.vo", "props/C04_mixins.vo", "theories/FmtCases.vo", "theories/K11Proofs.vo", "theories/CodecWrapProofs.vo"]
 
 
 def prebuild(ctx: vlib.Ctx):
@@ -1070,17 +1229,20 @@ def run(ctx: vlib.Ctx):
     ctx.theorems("props/C04_kwargs.vo", ["C04_encoder_kwargs_reach_encoder", "C04_encoder_kwargs_with_dialect_refuted",
                                          "C04_encoder_kwargs_with_dialect_partial", "C04_method_document_keyword"],
                  kernels=["K104a", "K104b"])
+    ctx.theorems("props/C04_mixins.vo", ["C04_mixin_from_is_model_decode", "C04_mixin_to_is_model_encode",
+                                         "C04_mixin_methods_and_codec_objects_alike"],
+                 kernels=["K104a", "K104b", "K104c", "K40"])
     ctx.checker_cmd = (f"make -C {vlib.COQ} props/C04_formats.vo props/C04_names.vo props/C04_dialects.vo props/C04_codec.vo "
-                       "props/C04_entries.vo props/C04_kwargs.vo (coqc 8.16.1, full .vo build); thorough: coqchk -o on the six files")
+                       "props/C04_entries.vo props/C04_kwargs.vo props/C04_mixins.vo (coqc 8.16.1, full .vo build); thorough: coqchk -o on the seven files")
     if not ctx.quick():     # second opinion on the compiled proofs
         rc, log, _ = vlib.run(["timeout", "900", "coqchk", "-o", "-silent", "-Q", "theories", "Verif", "-Q", "gen", "VerifGen",
                                "-Q", "props", "VerifProps", "VerifProps.C04_formats", "VerifProps.C04_names",
-                               "VerifProps.C04_dialects", "VerifProps.C04_codec", "VerifProps.C04_entries", "VerifProps.C04_kwargs"], cwd=vlib.COQ, timeout=930)
+                               "VerifProps.C04_dialects", "VerifProps.C04_codec", "VerifProps.C04_entries", "VerifProps.C04_kwargs", "VerifProps.C04_mixins"], cwd=vlib.COQ, timeout=930)
         import re as _re
         m = _re.search(r"\* Axioms:\s*(.*?)\n\s*\n", log, _re.S)
         axioms = " ".join(m.group(1).split()) if m else "(summary not found)"
         ok = rc == 0 and axioms == "<none>"
-        ctx.obligation("coqchk -o VerifProps.C04_formats C04_names C04_dialects C04_codec C04_entries C04_kwargs", ok, f"Axioms: {axioms} | " + log[-300:])
+        ctx.obligation("coqchk -o VerifProps.C04_formats C04_names C04_dialects C04_codec C04_entries C04_kwargs C04_mixins", ok, f"Axioms: {axioms} | " + log[-300:])
         ctx.trusted.append(f"coqchk -o on the C04 props files: Axioms: {axioms}")
         if not ok:
             ctx.not_shown("coqchk on the C04 props", log[-1000:])
@@ -1088,6 +1250,7 @@ def run(ctx: vlib.Ctx):
     k40_validation(ctx)
     k104a_validation(ctx)
     kwargs_correspondence(ctx)
+    mixin_program_correspondence(ctx)
     correspondence(ctx)
     broken = bool(ctx.unshown)
     names_oracle(ctx)
